@@ -12,11 +12,11 @@ NOTE = ("Trusted: Lean 4.33.0 kernel (axioms of every theorem ⊆ propext, Class
         "correspondence stages; harness generators and the Lean-compiled oracle. ")
 
 T = {
- "C01": ("other", "Theorems (12): the generated contribution test is exact for all clip types / fill rules / integers; about the hand model of the sweep's bookkeeping (Model.Wind, Model.Vertex): inserted edges get exact winding counts, the count update at an intersection is exact, every action of intersectEdges' decision table keeps 'hot iff contributing', and in an abstract sweep every reachable active-edge list satisfies both (sweep_invariant); vertex rings are flagged with exactly their local minima / maxima; about Model.AelOrder (isValidAelOrder, insertLeftEdge): two edges leaving one vertex in different directions are ordered as they lie geometrically above the scanline (exact, within 2^29), different x at the scanline orders by x, the newcomer is inserted after the residents that accept it and before the first that refuses it, and an x-ordered list stays x-ordered; about Model.Ix (buildIntersectList: the bottom-up merge sort over the jump pointers): the sorted edge list is the stable sort of the AEL by x at the top of the scanbeam and the intersect nodes are exactly the inversions, one node per pair of edges that change order inside the beam and none for any other pair (buildIntersectList_nodes_exact). Tie: translator regenerated each run + correspondence stages wind-corr, gen-corr, models-corr (probe ixlist: the real buildIntersectList / processIntersectList on synthetic active-edge lists). The rest of the sweep's geometry (the intersection points, horizontals, joins, ring assembly) is NOT proved: the end-to-end statement is explored on the real API with a Lean-executed exact winding-number oracle.",
+ "C01": ("other", "Theorems (12): the generated contribution test is exact for all clip types / fill rules / integers; about the hand model of the sweep's bookkeeping (Model.Wind, Model.Vertex): inserted edges get exact winding counts, the count update at an intersection is exact, every action of intersectEdges' decision table keeps 'hot iff contributing', and in an abstract sweep every reachable active-edge list satisfies both (sweep_invariant); vertex rings are flagged with exactly their local minima / maxima; about Model.AelOrder (isValidAelOrder, insertLeftEdge): two edges leaving one vertex in different directions are ordered as they lie geometrically above the scanline (exact, within 2^29), different x at the scanline orders by x, the newcomer is inserted after the residents that accept it and before the first that refuses it, and an x-ordered list stays x-ordered; about Model.Ix (buildIntersectList: the bottom-up merge sort over the jump pointers): the sorted edge list is the stable sort of the AEL by x at the top of the scanbeam and the intersect nodes are exactly the inversions, one node per pair of edges that change order inside the beam and none for any other pair (buildIntersectList_nodes_exact). Tie: translator regenerated each run + correspondence stages wind-corr, gen-corr, models-corr (probe ixlist: the real buildIntersectList / processIntersectList on synthetic active-edge lists). The rest of the sweep (its main loop, horizontals, horizontal joins; the intersection points and the ring-assembly operations are modelled and tied, the latter proved about under C02 / C03) is NOT proved: the end-to-end statement is explored on the real API with a Lean-executed exact winding-number oracle.",
          "End-to-end region equality is exploration only; theorems are about models."),
- "C02": ("other", "Theorems (8): ReverseSolution negates winding and area; about Model.Out: the removal loop of cleanCollinear stops only when no vertex is a duplicate or 180° spike (clean_post), buildPath emits no equal consecutive points and returns the whole cleaned ring. about Model.Split (fixSelfIntersects / doSplitOp; float areas executed, not reasoned about): provenance of every point of the repaired ring and of the records split off, new records are triangles, a split shortens the ring, rings without next-but-one crossings come back unchanged; Model.BuildPaths composes cleanCollinear and the buildPaths loop (tie only). End-to-end (winding ∈ {0,1}, vertex conditions, re-union) explored with the Lean oracle.",
+ "C02": ("other", "Theorems (8): ReverseSolution negates winding and area; about Model.Out: the removal loop of cleanCollinear stops only when no vertex is a duplicate or 180° spike (clean_post), buildPath emits no equal consecutive points and returns the whole cleaned ring. about Model.Split (fixSelfIntersects / doSplitOp; float areas executed, not reasoned about): provenance of every point of the repaired ring and of the records split off, new records are triangles, a split shortens the ring, rings without next-but-one crossings come back unchanged; Model.BuildPaths composes cleanCollinear and the buildPaths loop; about Model.Ring (addLocalMinPoly / addOutPt / addLocalMaxPoly / joinOutrecPaths / swapOutrecs / setOwner as a state machine over hot edges and output records): the coupling of hot edges and records is an invariant of every operation sequence the sweep can issue (ring_coupling_invariant), a ring under construction grows like a double-ended queue at its front / back tip, and joinOutrecPaths splices two polylines tip to tip without losing, duplicating or reordering a point. End-to-end (winding ∈ {0,1}, vertex conditions, re-union) explored with the Lean oracle.",
          "End-to-end claim is exploration only."),
- "C03": ("other", "Theorems: totality of Area64, minkowski, checkPrecision (panics exactly outside −8…8) on the generated / hand models; the only fault site of the polygon RectClip state machine is characterised (Props C06 executePoly_fault_iff); processIntersectList's scan for the next intersect node with adjacent edges never indexes past the end of the node list, swapPositionsInAEL is only called on an edge and its right neighbour, and the AEL ends up sorted, whatever order sort.Slice leaves the nodes in (doIntersections_total, about Model.Ix tied by models-corr ixlist). Every exported entry point is explored on malformed inputs, touching (glued) polygons and magnitudes up to 2^61 in child processes with watchdog and memory limit. Known finding: int64 product overflow from 2^30.",
+ "C03": ("other", "Theorems: totality of Area64, minkowski, checkPrecision (panics exactly outside −8…8) on the generated / hand models; the only fault site of the polygon RectClip state machine is characterised (Props C06 executePoly_fault_iff); processIntersectList's scan for the next intersect node with adjacent edges never indexes past the end of the node list, swapPositionsInAEL is only called on an edge and its right neighbour, and the AEL ends up sorted, whatever order sort.Slice leaves the nodes in (doIntersections_total, about Model.Ix tied by models-corr ixlist); ring assembly never dereferences a nil record or an empty ring in any state the sweep's operations can reach (ring_assembly_total, about Model.Ring tied by models-corr ring), and every owner chain ends — the unbounded owner walks of setOwner and of the tree builder terminate — in every such state when addLocalMinPoly / addLocalMaxPoly get the left edge first, as the sweep calls them (owner_chains_end; setOwner_keeps_chains_finite; the condition is necessary: owner_cycle_without_edge_order). Every exported entry point is explored on malformed inputs, touching (glued) polygons and magnitudes up to 2^61 in child processes with watchdog and memory limit. Known finding: int64 product overflow from 2^30.",
          "Totality of the whole API is exploration (fault enumeration over a malformed-input stream), not a theorem."),
  "C04": ("other", "Theorems (7): IsHole alternates with the level (generated code); about Model.Tree (buildTree / recursiveCheckOwners / checkSplitOwner): a record is only ever attached below a placed record with points that contains it, and every record with points is placed exactly once, for every record table and every strict containment order; about Model.PIPOp: pointInOpPolygon is exact within the coordinate domain; about Model.Contain (path1InsidePath2, the exported Path2ContainsPath1, getCleanPath): for rings that do not cross, two strictly inside vertices and none strictly outside give true, the mirror image false, all vertices on the boundary let the bounds' mid-point decide; getCleanPath only drops vertices. NOT true and not proved: that the accepted container is the innermost one — five known findings (two-level misplacements around horizontal touching), three of them pinned to the generated inputs of the registered runs. End-to-end nesting explored with the Lean oracle.",
          "Innermost-parent clause is violated by the code (known findings); end-to-end claim is exploration."),
